@@ -106,18 +106,149 @@ INTENT_COQ = {"in": "IIn", "out": "IOut", "inout": "IInOut"}
 EXTRA_DECLS = [("w", "integer", []), ("rr", "real", []), ("ra", "real", [(1, 6)])]
 
 
+# ------------------------------------------------------------------------------------ structure accesses
+# ("sref", [(component, [subscript expr..]), ..])   e.g. grid(ii)%cells(jj)%vals(j); signature "grid%cells%vals".
+# Harness only (not in the Coq syntax): the interpreter flattens the access to the location
+# (signature, all evaluated subscripts) after evaluating (= reading) every subscript of every component.
+TYPE_TEXT = """  type :: cell_t
+    integer :: vals(6)
+    integer :: f
+  end type cell_t
+  type :: blk_t
+    type(cell_t) :: cells(4)
+    integer :: x(6)
+    integer :: g
+  end type blk_t
+"""
+STRUCT_DECLS = "    type(blk_t) :: grid(3), sg\n    integer :: ii, jj\n"
+# shapes: list of (component, number of subscripts)
+SREF_SHAPES = [[("grid", 1), ("g", 0)], [("grid", 1), ("x", 1)], [("grid", 1), ("cells", 1), ("vals", 1)],
+               [("grid", 1), ("cells", 1), ("f", 0)], [("sg", 0), ("x", 1)], [("sg", 0), ("g", 0)],
+               [("sg", 0), ("cells", 1), ("vals", 1)], [("sg", 0), ("cells", 1), ("f", 0)]]
+
+
+def sref_sig(e):
+    return "%".join(c for c, _ in e[1])
+
+
+def has_sref_e(e):
+    k = e[0]
+    if k == "sref":
+        return True
+    if k == "idx" or k == "intr":
+        return any(has_sref_e(x) for x in e[2])
+    if k == "un":
+        return has_sref_e(e[2])
+    if k == "bin":
+        return has_sref_e(e[2]) or has_sref_e(e[3])
+    return False
+
+
+def has_sref(s):
+    k = s[0]
+    if k == "sassign":
+        return True
+    if k == "assign":
+        return any(has_sref_e(x) for x in s[2]) or has_sref_e(s[3])
+    if k == "if":
+        return has_sref_e(s[1]) or any(has_sref(x) for x in s[2] + s[3])
+    if k == "do":
+        return any(has_sref_e(x) for x in s[2:5]) or any(has_sref(x) for x in s[5])
+    if k == "while":
+        return has_sref_e(s[1]) or any(has_sref(x) for x in s[2])
+    if k == "call":
+        return any(has_sref_e(x) for x in s[4])
+    if k == "print":
+        return any(has_sref_e(x) for x in s[1])
+    return False
+
+
+# the shared helpers recurse through their module-level names, so wrapping them (in this process only; vlib is
+# not edited) makes structure accesses work at any depth of an expression
+_ev0, _f0, _n0 = mf.ev, mf.expr_to_fortran, mf.expr_names
+
+
+def _ev(s, e, reads):
+    if e[0] == "sref":
+        subs = []
+        for _, ix in e[1]:
+            subs += [mf.ev(s, x, reads) for x in ix]
+        loc = (sref_sig(e), tuple(subs))
+        reads.append(loc)
+        return s.get(loc)
+    return _ev0(s, e, reads)
+
+
+def _f(e):
+    if e[0] == "sref":
+        return "%".join(c + ("(%s)" % ", ".join(mf.expr_to_fortran(x) for x in ix) if ix else "") for c, ix in e[1])
+    return _f0(e)
+
+
+def _n(e, acc):
+    if e[0] == "sref":
+        acc.add(sref_sig(e))
+        for _, ix in e[1]:
+            for x in ix:
+                mf.expr_names(x, acc)
+        return acc
+    return _n0(e, acc)
+
+
+mf.ev, mf.expr_to_fortran, mf.expr_names = _ev, _f, _n
+
+
 # ------------------------------------------------------------------------------------ generation
 class XGen(fortgen.Gen):
     """fortgen.Gen + extended statements
        ("call", form, name, [intent..], [arg expr..], [keyword|None..])   form: user|pure|intrinsic|iparsed|alloc|dealloc
        ("while", cond, body)   ("print", [e..])"""
     p_ext = 0.0
+    p_struct = 0.0
+
+    def sref(self, env):
+        r = self.r
+        shape = r.choice(SREF_SHAPES)
+        comps = []
+        for c, nsub in shape:
+            ix = []
+            for _ in range(nsub):
+                c2 = r.random()
+                cands = ["ii", "jj"] + list(env)
+                if c2 < 0.75:
+                    ix.append(("var", r.choice(cands)))
+                elif c2 < 0.9:
+                    ix.append(("bin", "Add", ("var", r.choice(cands)), ("lit", 1)))
+                else:
+                    ix.append(("lit", r.randint(1, 3)))
+            comps.append((c, ix))
+        return ("sref", comps)
 
     def int_ref(self, env):
         r = self.r
+        if r.random() < self.p_struct * 2:
+            return self.sref(env)
         if r.random() < 0.55:
             return self.ref(env)
         return ("var", r.choice(["s", "t", "m", "n"]))
+
+    def expr(self, env, depth=0):
+        if self.p_struct and self.r.random() < self.p_struct:
+            return self.sref(env)
+        return fortgen.Gen.expr(self, env, depth)
+
+    def assign(self, env):
+        if self.p_struct and self.r.random() < self.p_struct * 1.5:
+            return ("sassign", self.sref(env), self.expr(env))
+        return fortgen.Gen.assign(self, env)
+
+    def loop(self, env, depth, in_loop):
+        lp = fortgen.Gen.loop(self, env, depth, in_loop)
+        if self.p_struct and self.r.random() < self.p_struct:
+            # a structure element as upper bound (positive step only so that the subscripts stay as generated)
+            if lp[4] == ("lit", 1):
+                lp = (lp[0], lp[1], ("lit", 1), ("intr", "IMin", [self.sref(env), ("lit", 3)]), lp[4], lp[5])
+        return lp
 
     def call(self, env):
         r = self.r
@@ -158,6 +289,8 @@ class XGen(fortgen.Gen):
     def while_(self, env, depth):
         r = self.r
         k = r.choice([("lit", 0), ("lit", 1), ("lit", 2), ("lit", 3), ("var", "n"), ("var", "n")])
+        if self.p_struct and r.random() < self.p_struct * 2:
+            k = ("intr", "IMin", [self.sref(env), ("lit", 2)])
         body = self.block(env, depth + 1, False, r.randint(1, 2))
         body.append(("assign", "w", [], ("bin", "Add", ("var", "w"), ("lit", 1))))
         return ("while", ("bin", "Lt", ("var", "w"), k), body)
@@ -200,6 +333,18 @@ def fix_adjacent(ss):
     return out
 
 
+def struct_vals(rng, vals):
+    """initial values of the structure locations (so that bounds/conditions reading them vary) and of ii, jj"""
+    import itertools
+    for shape in SREF_SHAPES:
+        n = sum(k for _, k in shape)
+        sig = "%".join(c for c, _ in shape)
+        for subs in itertools.product(range(1, 5), repeat=n):
+            vals[(sig, subs)] = rng.randint(0, 4)
+    vals[("ii", ())] = rng.randint(1, 3)
+    vals[("jj", ())] = rng.randint(1, 3)
+
+
 def is_core(s):
     k = s[0]
     if k in ("call", "while", "print"):
@@ -215,6 +360,8 @@ def is_core(s):
 
 def expressible(s):
     """can this statement be written as a C11.Ext.xstmt (one level of extension)?"""
+    if has_sref(s):
+        return False
     if s[0] == "call":
         return True
     if s[0] == "while":
@@ -228,10 +375,7 @@ def contains_gap_form(s):
     if k == "print":
         return True
     if k == "call":
-        form = s[1]
-        if form in ("user", "iparsed"):
-            return False
-        return any(i != "in" for i in s[3])
+        return s[1] == "pure" and any(i != "in" for i in s[3])   # IntrinsicCall statements: fixed in /repo (78e51fb)
     if k == "if":
         return any(contains_gap_form(x) for x in s[2] + s[3])
     if k == "do":
@@ -258,6 +402,8 @@ def xstmts_to_fortran(ss, ind="    "):
                 out.append("%sdeallocate(%s)" % (ind, ", ".join(a)))
             else:
                 out.append("%scall %s(%s)" % (ind, name.lower(), ", ".join(a)))
+        elif k == "sassign":
+            out.append("%s%s = %s" % (ind, mf.expr_to_fortran(s[1]), mf.expr_to_fortran(s[2])))
         elif k == "while":
             out.append("%sdo while (%s)" % (ind, mf.expr_to_fortran(s[1])))
             out += xstmts_to_fortran(s[2], ind + "  ")
@@ -287,13 +433,14 @@ def routine_text(stmts, decls, name="t"):
         else:
             lines.append("    %s :: %s" % (ty, v))
     lines.append("    integer, allocatable :: al(:), al2(:)")
+    lines.append(STRUCT_DECLS.rstrip("\n"))
     lines += xstmts_to_fortran(stmts)
     lines += ["  end subroutine %s" % name]
     return "\n".join(lines) + "\n"
 
 
 def module_text(routines):
-    return "module c11m\ncontains\n" + CALLEE_TEXT + "\n".join(routines) + "end module c11m\n"
+    return "module c11m\n" + TYPE_TEXT + "contains\n" + CALLEE_TEXT + "\n".join(routines) + "end module c11m\n"
 
 
 def program_text(stmts, decls):
@@ -318,6 +465,9 @@ def xnames(ss, acc):
         if k == "call":
             for e in s[4]:
                 mf.expr_names(e, acc)
+        elif k == "sassign":
+            mf.expr_names(s[1], acc)
+            mf.expr_names(s[2], acc)
         elif k == "while":
             mf.expr_names(s[1], acc)
             xnames(s[2], acc)
@@ -376,7 +526,7 @@ def xrun(stmts, s, tr, fuel, rec, path):
                 rec.execs[p] = rec.execs.get(p, 0) + 1
                 rec.reads.setdefault(p, set()).update(l[0] for kk, l in seg if kk == "R")
                 rec.writes.setdefault(p, set()).update(l[0] for kk, l in seg if kk == "W")
-                if st[0] == "assign" and done:
+                if st[0] in ("assign", "sassign") and done:
                     sq = {}
                     for kk, l in seg:
                         sq.setdefault(l[0], []).append("READ" if kk == "R" else "WRITE")
@@ -396,6 +546,8 @@ def xrun1(st, s, tr, fuel, rec, p):
                 loc = (e[1], ())
             elif e[0] == "idx":
                 loc = (e[1], tuple(mf.ev(s, x, pre) for x in e[2]))
+            elif e[0] == "sref":
+                loc = (sref_sig(e), tuple(mf.ev(s, x, pre) for _, ix in e[1] for x in ix))
             else:
                 mf.ev(s, e, pre)
                 loc = None
@@ -410,6 +562,14 @@ def xrun1(st, s, tr, fuel, rec, p):
         for kk, l in enumerate(W):
             s.vals[l] = kk
             tr.append(("W", l))
+        return "N"
+    if k == "sassign":
+        r_ix, r_e = [], []
+        loc = (sref_sig(st[1]), tuple(mf.ev(s, x, r_ix) for _, ix in st[1][1] for x in ix))
+        v = mf.ev(s, st[2], r_e)
+        tr += [("R", l) for l in r_e + r_ix]
+        s.vals[loc] = v
+        tr.append(("W", loc))
         return "N"
     if k == "while":
         while True:
@@ -477,7 +637,7 @@ def pair_nodes(stmts, nodes, path, out):
     for idx, (s, n) in enumerate(zip(stmts, nodes)):
         p = path + (idx,)
         k = s[0]
-        exp = {"assign": N.Assignment, "if": N.IfBlock, "do": N.Loop, "while": N.WhileLoop, "call": N.Call,
+        exp = {"assign": N.Assignment, "sassign": N.Assignment, "if": N.IfBlock, "do": N.Loop, "while": N.WhileLoop, "call": N.Call,
                "print": N.CodeBlock, "exit": N.CodeBlock, "cycle": N.CodeBlock, "return": N.Return}[k]
         if not isinstance(n, exp):
             raise RuntimeError("node kind mismatch at %s: %s vs %s" % (p, k, type(n).__name__))
@@ -618,6 +778,27 @@ def targeted():
     out.append([("print", [V("s"), I("a", V("j"))])])                                                                          # finding
     out.append([("do", "i", L(1), L(2), L(1), [("print", [I("a", V("i"))]),
                                                ("call", "alloc", "ALLOCATE", ["out", "out"], [I("al", V("i")), V("t")], [None, "stat"])])])
+    # ---- derived types: subscripts on inner components, in every position
+    S = lambda *comps: ("sref", [(c, list(ix)) for c, ix in comps])
+    gcv = S(("grid", [V("ii")]), ("cells", [V("jj")]), ("vals", [V("j")]))
+    out.append([("sassign", gcv, B("Add", S(("sg", []), ("x", [V("i")])), S(("grid", [V("jj")]), ("g", []))))])
+    out.append([("sassign", S(("grid", [V("ii")]), ("g", [])), L(1))])                          # ii only on the LHS
+    out.append([("assign", "a", [S(("sg", []), ("x", [V("ii")]))], ("intr", "IMax", [S(("grid", [V("ii")]), ("g", [])),
+                                                                                     S(("sg", []), ("cells", [V("jj")]), ("vals", [V("k")]))]))])
+    out.append([("call", "user", "sub_x", ["inout"], [gcv], [None])])                           # seeded: inner subscripts of a call argument
+    out.append([("call", "user", "sub_io", ["in", "out"], [S(("grid", [V("ii")]), ("g", [])), S(("sg", []), ("cells", [V("jj")]), ("f", []))],
+                 [None, None])])
+    out.append([("call", "user", "ext_sub", ["inout", "inout"], [S(("grid", [B("Add", V("ii"), L(1))]), ("x", [V("k")])), V("t")], [None, None])])
+    out.append([("call", "pure", "psub_in", ["in", "in"], [S(("grid", [V("jj")]), ("cells", [V("ii")]), ("f", [])), L(1)], [None, None])])
+    out.append([("call", "intrinsic", "MVBITS", ["in", "in", "in", "inout", "in"],
+                 [S(("grid", [V("ii")]), ("g", [])), L(0), L(2), S(("sg", []), ("cells", [V("jj")]), ("vals", [V("j")])), L(1)], [None] * 5)])
+    out.append([("call", "iparsed", "SYSTEM_CLOCK", ["out"], [S(("grid", [V("jj")]), ("cells", [V("ii")]), ("f", []))], ["count"])])
+    out.append([("call", "alloc", "ALLOCATE", ["out", "out"], [I("al", S(("grid", [V("ii")]), ("g", []))), S(("sg", []), ("g", []))], [None, "stat"])])
+    out.append([("do", "i", S(("sg", []), ("x", [V("ii")])), S(("grid", [V("jj")]), ("g", [])), L(1), [("assign", "t", [], V("i"))])])
+    out.append([("if", B("Gt", S(("grid", [V("ii")]), ("cells", [V("jj")]), ("f", [])), L(1)), [("assign", "s", [], L(1))], [])])
+    out.append([("while", B("Lt", V("w"), ("intr", "IMin", [S(("grid", [V("ii")]), ("x", [V("jj")])), L(2)])),
+                 [("assign", "w", [], B("Add", V("w"), L(1)))])])
+    out.append([("do", "j", L(1), L(2), L(1), [("call", "user", "sub_x", ["inout"], [gcv], [None])])])
     out.append([("return",)])
     return out
 
@@ -714,11 +895,13 @@ def run(ctx):
             vals, bnds = g.store()
             vals[("i", ())], vals[("j", ())], vals[("k", ())] = 1 + k % 2, 2, 3
             vals[("w", ())] = 0
+            struct_vals(ctx.rng("tgs%d" % k), vals)
             stores.append((vals, bnds))
         progs.append((t, g.decls() + EXTRA_DECLS, stores, "targeted"))
     for _ in range(ctx.pick(80, 1000)):
         g = XGen(rng, max_depth=rng.choice([1, 2, 2, 3]))
         g.p_ext = rng.choice([0.0, 0.15, 0.3, 0.45])
+        g.p_struct = rng.choice([0.0, 0.0, 0.1, 0.2])
         p = fix_adjacent(g.program(rng.randint(1, 5)))
         stores = []
         for k in range(ctx.pick(2, 3)):
@@ -726,6 +909,7 @@ def run(ctx):
             vals[("w", ())] = rng.choice([0, 0, 1, 3])
             for lv in fortgen.LOOPVARS:
                 vals[(lv, ())] = rng.randint(1, 3)
+            struct_vals(rng, vals)
             stores.append((vals, bnds))
         progs.append((p, g.decls() + EXTRA_DECLS, stores, "random"))
 
@@ -783,7 +967,7 @@ def run(ctx):
             ctx.count((s, sorted(r[1].items())), nontriv)
             miss[p] = missing(r[1], rd, wr)
             # order: per-variable dynamic access sequence of an assignment = reported sequence
-            if s[0] == "assign":
+            if s[0] in ("assign", "sassign"):
                 for sq in rec.seqs.get(p, ()):
                     got = tuple(sorted((v, tuple(t for t, _ in acc)) for v, acc in r[1].items()))
                     if sq != got:
@@ -791,7 +975,7 @@ def run(ctx):
                                                  "sequence of the assignment differs from the reported one",
                                                  "dynamic": sq, "reported": got}))
                         break
-                lhs = r[1].get(s[1], [])
+                lhs = r[1].get(s[1] if s[0] == "assign" else sref_sig(s[1]), [])
                 if not lhs or lhs[-1][0] != "WRITE" or any(t != "READ" for t, _ in lhs[:-1]) or \
                         len({l for acc in r[1].values() for _, l in acc}) != 1:
                     prop_fail.append((None, {"program": txt, "statement_path": list(p), "why": "order: the write of the "
@@ -881,7 +1065,8 @@ def run(ctx):
     for x in "abcdijkmnst":
         nm.get(x)
     okshape = ["(AOk %s false)" % mf.stmts_to_coq(t, nm) for t in REFUSED_SHAPES] + \
-              ["(AOk %s true)" % mf.stmts_to_coq(t, nm) for t in targeted() if all(is_core(s) for s in t)]
+              ["(AOk %s true)" % mf.stmts_to_coq(t, nm) for t in targeted()
+               if all(is_core(s) and not has_sref(s) for s in t)]
 
     # ---- model vs implementation, interpreter vs Coq, refusal table: one sharded evaluation
     allc = ["(AObs %s)" % c for c in coq_cases] + ["(AXv %s)" % c for c in xv_cases] + okshape
